@@ -236,3 +236,98 @@ Print Assumptions C01_T13_parse_header.
 Theorem C01_full_is_refuted : ~ C01_full.
 Proof. exact C01_full_refuted. Qed.
 Print Assumptions C01_full_is_refuted.
+
+(* ---- T4: the composition over a whole pipelined stream ------------------------------- *)
+(* Proof/C01Compose*.v.  [targets_ok s]: on every substring of s that has the shape of a
+   request-target, urlsplit (as modelled) is defined and refuses exactly the targets that
+   RFC 3986 (the reference's target_policy) refuses; it holds e.g. for every stream without
+   '[' and ']' (C01_targets_ok_no_brackets).  C01_full_dev itself (no side condition) is
+   false of the model: C01_full_dev_is_refuted and the three witness lemmas. *)
+From WV Require Proof.SplitParser Proof.SplitChan.
+From WV Require Import Proof.C01ComposeLib Proof.C01ComposeHead Proof.C01ComposeBody Proof.C01Compose Proof.C01ComposeTop.
+
+(* per message, the head: a fresh parser offered the stream consumes exactly the head the
+   reference reads and ends in the reference's outcome (empty / refusal / request line,
+   field dict, framing decision with the receiver installed) *)
+Theorem C01_T4_head_step : forall a s lines rest n,
+  bytes_ok s -> targets_ok s -> read_head s [] [] 0 = Some (lines, rest, n) ->
+  (max_request_header_size a <=? n) = false ->
+  exists p, received a parser_init s = ROk p (Z.of_N n) /\ head_rel a p (ref_head_out (cfg_of a) lines).
+Proof. exact head_step. Qed.
+Print Assumptions C01_T4_head_step.
+
+(* the channel loop, from any state between two messages: the requests queued so far plus
+   what the reference extracts from the rest of the stream *)
+Theorem C01_T4_loop : forall a, 0 < max_request_body_size a ->
+  forall n s, (length s <= n)%nat -> forall fuel rf c L c',
+  s <> [] -> bytes_ok s -> targets_ok s -> (length s < fuel)%nat -> (length s < rf)%nat ->
+  request c = None -> cut (map obs_of_parser (requests c)) = (L, false) ->
+  received_loop fuel a c s = COk c' ->
+  observe (COk c') = Some (L ++ map ref_view (ref_loop rf (cfg_of a) all_devs s)).
+Proof. exact compose_loop. Qed.
+Print Assumptions C01_T4_loop.
+
+(* C01_full_dev under its two side conditions *)
+Theorem C01_full_dev_partial : forall a s,
+  0 < max_request_body_size a -> bytes_ok s -> targets_ok s ->
+  observe (feed a chan_init [s]) = Some (map ref_view (ref_run_dev (cfg_of a) all_devs s)).
+Proof. exact compose_whole. Qed.
+Print Assumptions C01_full_dev_partial.
+
+(* C01_full (strict reference) wherever the F10 switch makes no difference on the stream *)
+Theorem C01_full_partial : forall a s,
+  0 < max_request_body_size a -> bytes_ok s -> targets_ok s ->
+  ref_run (cfg_of a) s = ref_run_dev (cfg_of a) all_devs s ->
+  observe (feed a chan_init [s]) = Some (map ref_view (ref_run (cfg_of a) s)).
+Proof. exact compose_whole_strict. Qed.
+Print Assumptions C01_full_partial.
+
+Theorem C01_targets_ok_no_brackets : forall s, memb 91 s = false -> memb 93 s = false -> targets_ok s.
+Proof. exact targets_ok_nobracket. Qed.
+Print Assumptions C01_targets_ok_no_brackets.
+
+Theorem C01_full_dev_no_brackets : forall a s,
+  0 < max_request_body_size a -> bytes_ok s -> memb 91 s = false -> memb 93 s = false ->
+  observe (feed a chan_init [s]) = Some (map ref_view (ref_run_dev (cfg_of a) all_devs s)).
+Proof. exact compose_whole_nobracket. Qed.
+Print Assumptions C01_full_dev_no_brackets.
+
+(* the model never answers "unmodelled" under the hypothesis on targets *)
+Theorem C01_feed_modelled : forall a s, bytes_ok s -> targets_ok s -> exists c', feed a chan_init [s] = COk c'.
+Proof. exact feed_modelled. Qed.
+Print Assumptions C01_feed_modelled.
+
+(* every segmentation, with C02: the events of any division of the stream into reads, up to
+   and including the first refused request, are those of the single read; those are the
+   queued requests; and they observe as the reference's list *)
+Theorem C01_full_dev_any_segmentation : forall a reads,
+  0 < max_request_body_size a -> bytes_ok (concat reads) -> targets_ok (concat reads) ->
+  SplitChan.cut (snd (SplitChan.feed_tr true a chan_init reads))
+  = SplitChan.cut (snd (SplitChan.feed_tr true a chan_init [concat reads]))
+  /\ exists c' t, SplitChan.feed_tr true a chan_init [concat reads] = (COk c', t)
+       /\ map (SplitParser.obs true) (requests c') = flat_map SplitChan.ev_reqs t
+       /\ observe (COk c') = Some (map ref_view (ref_run_dev (cfg_of a) all_devs (concat reads))).
+Proof. exact compose_any_segmentation. Qed.
+Print Assumptions C01_full_dev_any_segmentation.
+
+(* outside the side conditions the unconditional statement fails *)
+Theorem C01_full_dev_is_refuted : ~ C01_full_dev.
+Proof. exact full_dev_refuted. Qed.
+Print Assumptions C01_full_dev_is_refuted.
+
+Theorem C01_full_dev_refuted_zero_body_limit :
+  observe (feed adj_mb0 chan_init [mb0_stream]) = Some [OIncomplete] /\
+  map ref_view (ref_run_dev (cfg_of adj_mb0) all_devs mb0_stream) = [ORefuse 413].
+Proof. exact full_dev_refuted_zero_body_limit. Qed.
+Print Assumptions C01_full_dev_refuted_zero_body_limit.
+
+Theorem C01_full_dev_refuted_c0_target :
+  observe (feed adj0 chan_init [c0_target_stream]) = Some [ORefuse 400] /\
+  exists m, map ref_view (ref_run_dev (cfg_of adj0) all_devs c0_target_stream)
+            = [ODeliver [71;69;84] m [49;46;49] [] [] false].
+Proof. exact full_dev_refuted_c0_target. Qed.
+Print Assumptions C01_full_dev_refuted_c0_target.
+
+Theorem C01_full_dev_unmodelled_bracket : feed adj0 chan_init [bracket_stream] = CUnmodelled.
+Proof. exact full_dev_unmodelled_bracket. Qed.
+Print Assumptions C01_full_dev_unmodelled_bracket.
